@@ -1,5 +1,5 @@
 From Coq Require Import ZArith List.
-From PV Require Import Base.U64 C12.C12_Model C12.C12_Mem C12.C12_MemC C12.C12_Iov C12.C12_Deser C12.C12_Walk C12.C12_Flat C12.C12_Proofs C12.C12_Sep C12.C12_Wire C12.C12_RtD C12.C12_RtS C12.C12_Rt.
+From PV Require Import Base.U64 C12.C12_Model C12.C12_Mem C12.C12_MemC C12.C12_Iov C12.C12_Deser C12.C12_Walk C12.C12_Flat C12.C12_Proofs C12.C12_Sep C12.C12_Wire C12.C12_RtD C12.C12_RtS C12.C12_Rt C12.C12_RtC C12.C12_RtC2 C12.C12_RtC3.
 Theorem deser_in_bounds_no_trap : forall hstep sh m v,
   shape_wf sh -> inv m v ->
   exists t st, deserialize hstep cfg_final sh m v = Ok (t, st) /\ inv (d_mem st) (d_iov st) /\
@@ -119,3 +119,32 @@ Theorem ser_roundtrip_extract_back_refines_flat_partial : forall m v n w,
     xpost m v n p m' v' (skipn (Z.to_nat (len w - n)) w) (firstn (Z.to_nat (len w - n)) w).
 Proof. exact ebc_flat. Qed.
 Print Assumptions ser_roundtrip_extract_back_refines_flat_partial.
+Theorem ser_roundtrip_noiov_checked_partial : forall hstep,
+  (forall h b, (0 <= h < W32)%Z -> (0 <= b < 256)%Z -> (0 <= hstep h b < W32)%Z) ->
+  forall sh ms x sst vals wf Fs body0 mr v,
+  shape_wf sh -> sh_checked sh = true ->
+  sup_fs (sh_fields sh) -> lay_fs (sh_fields sh) -> (forall b, psep (aranges_fs (sh_fields sh) b)) ->
+  mem_bytes ms -> Forall (fun L => (L <= STRIDE)%Z) (lens ms) -> (0 <= x)%Z ->
+  rd_fs (perm (sh_fields sh)) ms x = Ok (vals, wf, Fs) -> load ms x (sh_size sh) = Ok body0 ->
+  load ms x 4 = Ok (le_enc 4 0) ->
+  (forall r, In r Fs -> sep r (x, 4%Z)) ->
+  serialize hstep cfg_final sh ms x = Ok sst -> s_full sst = false ->
+  (forall e, In e (removelast (i_el (s_iov sst))) -> sep e (x, 4%Z)) ->
+  inv mr v -> psep (i_el v) -> flat mr (i_el v) = flat (s_mem sst) (i_el (s_iov sst)) ->
+  (i_nb v + 1 + len Fs <= i_cap v)%Z ->
+  exists t st w2 F, deserialize hstep cfg_final sh mr v = Ok (t, st) /\ t <> 0%Z /\
+    ptr_ok (lens (d_mem st)) t (sh_size sh) /\
+    rd_fs (perm (sh_fields sh)) (d_mem st) t = Ok (vals, w2, F) /\
+    flat (d_mem st) (i_el (d_iov st)) = Ok nil.
+Proof. exact ser_roundtrip_noiov_checked. Qed.
+Print Assumptions ser_roundtrip_noiov_checked_partial.
+Theorem ser_roundtrip_checksum_fragmentation_independent_partial : forall hstep,
+  (forall h b, (0 <= h < W32)%Z -> (0 <= b < 256)%Z -> (0 <= hstep h b < W32)%Z) ->
+  forall x1 x2 el1 el2 m1 m2 w h0 m1' m2',
+  mem_bytes m1 -> mem_bytes m2 -> (forall e, In e el1 -> sep e (x1, 4%Z)) -> (forall e, In e el2 -> sep e (x2, 4%Z)) ->
+  load m1 x1 4 = Ok (le_enc 4 h0) -> load m2 x2 4 = Ok (le_enc 4 h0) -> (0 <= h0 < W32)%Z ->
+  flat m1 el1 = Ok w -> flat m2 el2 = Ok w ->
+  hash_iov hstep m1 x1 el1 = Ok m1' -> hash_iov hstep m2 x2 el2 = Ok m2' ->
+  load m1' x1 4 = load m2' x2 4 /\ load32 m1' x1 = Ok (hash_ext hstep h0 w).
+Proof. exact hash_iov_fragmentation_independent. Qed.
+Print Assumptions ser_roundtrip_checksum_fragmentation_independent_partial.
